@@ -320,6 +320,10 @@ _TASKS = {}
 def _tasks(modname):
     if modname not in _TASKS:
         _TASKS[modname] = importlib.import_module(modname).tasks()
+        only = os.environ.get("VERIF_ONLY_TASKS")      # development aid (mutant runs): regex over task names
+        if only:
+            import re
+            _TASKS[modname] = [t for t in _TASKS[modname] if re.search(only, t.name)]
     return _TASKS[modname]
 
 
